@@ -89,6 +89,10 @@ mutual
 def certifyMerge : Nat → Node → Nat → Bool
   | 0, _, _ => false
   | fuel + 1, .mk raw nrings kids, ringIndex =>
+    -- the label walk of `to_smiles` is the token-level renaming `+ ringIndex` (instance of C02_shift_preserves_molecule)
+    (match tokenize raw, tokenize (shiftSmiles raw ringIndex) with
+     | some t0, some t1 => t1 == t0.map (relabelTok (· + ringIndex))
+     | _, _ => false) &&
     certifyKids fuel kids Gen.dummyAtoms (ringIndex + max 1 nrings) (shiftSmiles raw ringIndex)
 def certifyKids : Nat → List Node → List ((Nat × List Char) × (Nat × List Char)) → Nat → List Char → Bool
   | 0, _, _, _, _ => false
